@@ -21,7 +21,7 @@ package comp
 // registry afterwards (key cascade-loses-concurrent-entry); all other clauses of the message step (tree, events,
 // exactly the entries of (Q, removed entity) gone, nothing else) are judged on the registries without that entry.
 // Model: Spine.Disc.World.stepG for the message, then the request op — the sequential order the theorem
-// c06_cascade_concurrent_linearises (Spine/Props/C06Conc.lean) says every interleaving is equivalent to when each
+// c06_interleaving_is_sequential (Spine/Props/C06Conc.lean) says every interleaving is equivalent to when each
 // pass is ONE critical section, which c06gen_* re-derive from the source on every run.
 
 import (
